@@ -42,6 +42,14 @@ func init() {
 		ex.ghost["httpclient.lasturl"] = a[2]
 		return Tuple{Ptr{Obj: ex.newObj(sv, reqT)}, Iface{}}
 	})
+	reg("(*net/http.Response).Location", func(ex *Exec, fn *ssa.Function, a []Value) Value {
+		// the scripted responses carry no headers: with a Location header the answer would be its parse result
+		if ex.Branch(ex.fresh("resp.has.location", SBool, "env")) {
+			return intrinsics["net/url.Parse"](ex, nil, []Value{ex.fresh("resp.location", SSeq, "env")})
+		}
+		g := ex.eng.pkgs["net/http"].Var("ErrNoLocation")
+		return Tuple{Ptr{}, copyVal(ex.globalObj(g).V)}
+	})
 	reg("(*net/http.Request).SetBasicAuth", func(ex *Exec, fn *ssa.Function, a []Value) Value {
 		p := a[0].(Ptr)
 		sv := (*p.slot()).(*StructV)
